@@ -195,7 +195,9 @@ func c08Latest(e *Env) {
 					nPers++
 					// a CorrectRunningStatus(persisted) call precedes
 					corrected := false
-					for _, ci := range ir.CallsIn(fn, func(c *ssa.CallCommon) bool { return strings.HasSuffix(ir.CalleeName(c), "Status).CorrectRunningStatus") }) {
+					for _, ci := range ir.CallsIn(fn, func(c *ssa.CallCommon) bool {
+						return strings.HasSuffix(ir.CalleeName(c), "Status).CorrectRunningStatus")
+					}) {
 						if ir.Resolve(ci.Common().Args[0]) == persisted && ir.Precedes(ci, rt) {
 							corrected = true
 						}
